@@ -27,7 +27,7 @@ PROPS = {
     'C04': {
         'level': 'exploration',
         'required_probes': ['read-at-maximum-lag', 'read-at-maximum-lead', 'first-period-of-default-range', 'last-period-of-default-range', 'negative-spelling', 'rejected:min_iter>max_iter', 'rejected:offset-out-of-span', 'history:reindex'],
-        'strata': [('parser-built-recorded', 'frame', 1.0)],
+        'strata': [('parser-built-recorded', 'frame', 0.9), ('refused-requests-inside-hooks', 'solver', 0.1)],
         'quick': 20000,
         'thorough': 300000,
     },
